@@ -87,6 +87,35 @@ def check(run: Run) -> None:
         if not lk:
             run.ok("C18.R5", fi, "every sub-tree embedded in the result is visited")
 
+    # ---------------- R9: what is taken apart as a call is the value that was tested to be one
+    run.rule("C18.R9", "`x.args[..]` in visit_Subscript / visit_Attribute is read from the same value that the governing is_call_of / isinstance(.., ast.Call) test examined")
+    n_reads = 0
+    for name in ("visit_Subscript", "visit_Attribute"):
+        fi = unrolled(m, cls.methods[name])
+        fa9 = ctx.analysis(fi)
+        for n in own_nodes(fi):
+            if not (isinstance(n, ast.Attribute) and n.attr == "args" and isinstance(n.ctx, ast.Load) and fa9.cfg.has_node(n)):
+                continue
+            try:
+                subj = strip_sites(fa9.term_of(n.value))
+            except AnalysisError:
+                continue
+            if subj[0] == "param":
+                continue
+            tested = []
+            for a, pol in Facts(fa9, n).atoms:
+                if not pol or not isinstance(a, ast.Call) or not isinstance(a.func, ast.Name):
+                    continue
+                if a.func.id == "is_call_of" and len(a.args) == 2:
+                    tested.append(strip_sites(fa9.term_of(a.args[0], fa9.cfg.node_of(n))))
+                elif a.func.id == "isinstance" and len(a.args) == 2 and ast.unparse(a.args[1]) == "ast.Call":
+                    tested.append(strip_sites(fa9.term_of(a.args[0], fa9.cfg.node_of(n))))
+            if not tested:
+                continue  # not a guarded take-apart: other rules (R3, typing) cover what is read
+            n_reads += 1
+            run.check(subj in tested, "C18.R9", fi, stmt_of(n), "the call taken apart is the call that was tested", f"{name} reads .args of {show(subj)[:60]} under a test made on {', '.join(show(t_)[:60] for t_ in tested)}: when the tested value only became a call after substitution (a parameter bound to First(..)), the other one is a Name or another call - AttributeError, or the wrong sequence is projected", "read the arguments of the value that was tested", show(subj))
+    run.floor("C18.R9", n_reads, 2, "guarded reads of a call's arguments in visit_Subscript / visit_Attribute")
+
     # ---------------- R3: constructor typing, whole module
     n_ctor = 0
     for fi in [f for f in m.funcs.values() if f.module.name == mod]:
